@@ -393,7 +393,12 @@ fn check(plan: &Plan, h: &[Ev]) -> Option<Violation> {
                             return violation("drain-future-value", format!("drain returned at {} yielded a value pushed at {}", d.ret, pe.inv));
                         }
                         if yielded.contains(&bits) || all_conc_yield.contains(&bits) {
-                            return violation("drain-duplicate", format!("value {} was yielded by two drains{}", x, if some_push_overlaps(d) { " sig:push-overlaps-drain" } else { "" }));
+                            // the shipped defect re-yields a value only out of a slot that ANOTHER push has
+                            // claimed and not yet written while this drain reads it: that push is in
+                            // flight during this drain. A value that comes out twice with no other
+                            // push in flight during the second drain is not that defect.
+                            let other_in_flight = h.iter().any(|q| matches!(q.res, Res::Push(v) if v.to_bits() != bits) && q.inv < d.ret && q.ret > d.inv);
+                            return violation("drain-duplicate", format!("value {} was yielded by two drains{}", x, if other_in_flight { " sig:push-overlaps-drain" } else { "" }));
                         }
                         if pe.ret < prev_drain_inv {
                             return violation("drain-stale-value", format!("drain by t{} (steps {}..{}) yielded {} whose push completed at {} before the previous drain began at {}{}", d.tid, d.inv, d.ret, x, pe.ret, prev_drain_inv, if overlaps_any_drain(pe) { " sig:push-overlaps-drain" } else { "" }));
@@ -432,6 +437,10 @@ pub struct UPlan {
     pub capacity: usize,
     pub n: usize,
     pub trials: u32,
+    /// positions start..start+len of the stream arrive as ONE `record_many(value, len)` call
+    /// through the histogram interface (copies of one value), the rest by single pushes
+    #[serde(default)]
+    pub batch: Option<(usize, usize)>,
 }
 
 pub struct C16Uniformity;
@@ -447,7 +456,13 @@ impl Scenario for C16Uniformity {
     fn plan(&self, r: &mut Rng, tier: Tier) -> UPlan {
         let capacity = r.range(1, 4) as usize;
         let n = capacity + r.range(1, 6) as usize;
-        UPlan { capacity, n, trials: if tier == Tier::Thorough { 40_000 } else { 20_000 } }
+        let batch = if r.chance(400) {
+            let start = r.below(n as u64 - 1) as usize;
+            Some((start, r.range(2, (n - start) as u64) as usize))
+        } else {
+            None
+        };
+        UPlan { capacity, n, trials: if tier == Tier::Thorough { 40_000 } else { 20_000 }, batch }
     }
     fn rule(&self) -> &'static str {
         "one run = one (capacity, stream length) cell: `trials` independent push-n-then-drain trials on one reservoir with the thread generator seeded from the run; distinct = distinct hash of the per-position retention counts; every cell is non-trivial (n > capacity)"
@@ -461,8 +476,18 @@ impl Scenario for C16Uniformity {
             dsim::passthrough(true);
             let res = AtomicSamplingReservoir::new(p.capacity);
             for _ in 0..p.trials {
-                for i in 0..p.n {
-                    res.push((i + 1) as f64);
+                let mut i = 0;
+                while i < p.n {
+                    match p.batch {
+                        Some((start, len)) if i == start => {
+                            metrics::HistogramFn::record_many(&res, (i + 1) as f64, len);
+                            i += len;
+                        }
+                        _ => {
+                            res.push((i + 1) as f64);
+                            i += 1;
+                        }
+                    }
                 }
                 let mut got = vec![];
                 let mut rate = 0.0;
@@ -503,11 +528,18 @@ impl Scenario for C16Uniformity {
             let pr = plan.capacity as f64 / plan.n as f64;
             let sigma = (t * pr * (1.0 - pr)).sqrt();
             for (i, k) in c.iter().enumerate() {
-                let dev = (*k as f64 - t * pr).abs();
-                if dev > 6.0 * sigma {
+                // the copies of a batch are counted under the batch's first position; their
+                // retentions are correlated, so the bound assumes the worst (fully correlated)
+                let mult = match plan.batch {
+                    Some((start, len)) if i == start => len as f64,
+                    Some((start, len)) if i > start && i < start + len => 0.0,
+                    _ => 1.0,
+                };
+                let dev = (*k as f64 - t * pr * mult).abs();
+                if dev > 6.0 * sigma * mult.max(1.0) {
                     v = violation(
                         "retention-not-uniform",
-                        format!("capacity {} stream {}: position {} retained {} times in {} trials, expected {:.0} +- {:.0} (6 sigma); all positions: {:?}", plan.capacity, plan.n, i, k, plan.trials, t * pr, 6.0 * sigma, c),
+                        format!("capacity {} stream {} (batch {:?}): position {} retained {} times in {} trials, expected {:.0} +- {:.0} (6 sigma); all positions: {:?}", plan.capacity, plan.n, plan.batch, i, k, plan.trials, t * pr * mult, 6.0 * sigma * mult.max(1.0), c),
                     );
                     break;
                 }
@@ -526,10 +558,10 @@ impl Scenario for C16Uniformity {
     fn shrink(&self, p: &UPlan) -> Vec<UPlan> {
         let mut out = vec![];
         if p.capacity > 1 {
-            out.push(UPlan { capacity: p.capacity - 1, n: p.n - 1, trials: p.trials });
+            out.push(UPlan { capacity: p.capacity - 1, n: p.n - 1, trials: p.trials, batch: None });
         }
         if p.n > p.capacity + 1 {
-            out.push(UPlan { capacity: p.capacity, n: p.n - 1, trials: p.trials });
+            out.push(UPlan { capacity: p.capacity, n: p.n - 1, trials: p.trials, batch: None });
         }
         out
     }
